@@ -1528,9 +1528,15 @@ pub fn gen_c12(tier: &str, seed: u64) -> Vec<Vec<String>> {
         let lo = r.range(1, 4);                 // level in force, and of the late call
         let la = r.below(lo);                   // the call in between is more restrictive
         let m = r.pick_s(&["chatty", "a::b"]).to_string();
+        // text filters: the call that is entered first (and finishes last) has one and the call in
+        // between has none, or the other way round, or both — what is in force at the end is the
+        // specification of the last call AS A WHOLE, text filter included
+        let rx1 = if r.chance(2, 3) { Some(r.pick(&REGEXES).to_string()) } else { None };
+        let rx0 = if r.chance(1, 3) { Some(r.pick(&REGEXES).to_string()) } else { None };
+        let rxs = |x: &Option<String>| x.as_ref().map_or("_".to_string(), |x| format!("r{}", hexs(x)));
         c.push(format!("BUILD s2 _:{lo} _"));
-        c.push(format!("BUILD s0 _:{la} _"));
-        c.push(format!("BUILD s1 _:{},n{}:{lo} _", r.below(lo + 1), hexs(&m)));
+        c.push(format!("BUILD s0 _:{la} {}", rxs(&rx0)));
+        c.push(format!("BUILD s1 _:{},n{}:{lo} {}", r.below(lo + 1), hexs(&m), rxs(&rx1)));
         let tgs = targets_for(&mut r, &[m.clone()]);
         let grid: String = tgs.iter().map(|t| hexs(t)).collect::<Vec<_>>().join(" ");
         c.push("INIT s2".into());
@@ -1544,6 +1550,12 @@ pub fn gen_c12(tier: &str, seed: u64) -> Vec<Vec<String>> {
         c.push("CFINISH 1".into());
         c.push(format!("CQUIET {grid}"));
         c.push(format!("GRID {grid}"));
+        for _ in 0..4 {
+            let tg = r.pick(&tgs).clone();
+            let msg = r.pick_s(&MSGS).to_string();
+            let mt = rx1.as_ref().map_or(true, |x| regex::Regex::new(x).unwrap().is_match(&msg));
+            c.push(format!("LOG {} {} _ {} {}", r.range(1, 5), hexs(&tg), if mt { 1 } else { 0 }, hexs(&msg)));
+        }
         c.push("END".into());
         cases.push(c);
     }
